@@ -31,6 +31,7 @@ type c10Case struct {
 	Errs     []map[string]any `json:"errors,omitempty"`
 	WithData bool             `json:"with_data"`
 	Second   bool             `json:"second_failing_element"`
+	MaxBatch int              `json:"max_batch,omitempty"` // downstream batches split into chunks of this size (0: default 3000)
 }
 
 func (c10) ID() string            { return "C10" }
@@ -200,12 +201,25 @@ func genErrorPayload(r *rand.Rand) []map[string]any {
 		}
 		out = append(out, e)
 	}
-	// sometimes several errors share one message and differ only in path / extensions
-	if n >= 2 && r.Intn(3) == 0 {
+	// sometimes several errors share one message and differ only in path / extensions,
+	// or share message and path and differ only in extensions
+	switch {
+	case n >= 2 && r.Intn(3) == 0:
 		for i := 1; i < n; i++ {
 			out[i]["message"] = out[0]["message"]
 			out[i]["path"] = []any{"dup", float64(i)}
 			out[i]["extensions"] = map[string]any{"n": float64(i)}
+		}
+	case n >= 2 && r.Intn(3) == 0:
+		out[0]["extensions"] = map[string]any{"item": "first"}
+		for i := 1; i < n; i++ {
+			out[i]["message"] = out[0]["message"]
+			if p, has := out[0]["path"]; has {
+				out[i]["path"] = p
+			} else {
+				delete(out[i], "path")
+			}
+			out[i]["extensions"] = map[string]any{"item": float64(i)}
 		}
 	}
 	return out
@@ -262,6 +276,7 @@ func (p c10) Gen(c *run.Ctx, idx int) (json.RawMessage, error) {
 	cs.Errs = genErrorPayload(r)
 	cs.WithData = r.Intn(3) == 0
 	cs.Second = r.Intn(8) == 0
+	cs.MaxBatch = []int{0, 0, 1, 2}[r.Intn(4)]
 	return mustJSON(cs), nil
 }
 
@@ -271,7 +286,7 @@ func (p c10) Exec(c *run.Ctx, idx int, raw json.RawMessage) []run.Result {
 		return []run.Result{{Verdict: "broken", Message: err.Error()}}
 	}
 	res := run.Result{Verdict: run.Held, Counters: map[string]int{}}
-	r, err := rig.New(sp.U, rig.Config{})
+	r, err := rig.New(sp.U, rig.Config{MaxBatch: sp.MaxBatch})
 	if r != nil {
 		defer r.Close()
 	}
@@ -351,7 +366,7 @@ func (p c10) Exec(c *run.Ctx, idx int, raw json.RawMessage) []run.Result {
 		calls = append(calls, cref{e.Service, per[e.Service], e.BatchSize})
 	}
 	target := calls[sp.FaultAt%len(calls)]
-	r2, err := rig.New(sp.U, rig.Config{})
+	r2, err := rig.New(sp.U, rig.Config{MaxBatch: sp.MaxBatch})
 	if r2 != nil {
 		defer r2.Close()
 	}
